@@ -30,7 +30,7 @@ from props import C03 as c3
 ID = 'C09'
 COQ_MODEL = 'model.History'
 COQ_CORR = 'corr_C09'
-N_QUICK = 150
+N_QUICK = 130
 N_THOROUGH = 700
 VM_CASES = 25
 RULE = ('cases = corpus + random histories of 1..8 requests on one application (outcome classes: handler programs of '
@@ -210,11 +210,14 @@ def upload_body(parts):
 def build_app(case, rec_box):
     """the static application; rec_box[0] is the recorder of the request being served"""
     from ombott import Ombott
+    cfg = {'max_body_size': MAX_BODY, 'max_memfile_size': MEMFILE}
+    if case.get('debug'):
+        cfg['debug'] = True             # error pages show repr(exception) and the traceback text
     if case.get('cfg_via') == 'setup':
         app = Ombott()
-        app.setup({'max_body_size': MAX_BODY, 'max_memfile_size': MEMFILE})
+        app.setup(cfg)
     else:
-        app = Ombott({'max_body_size': MAX_BODY, 'max_memfile_size': MEMFILE})
+        app = Ombott(cfg)
     progs = {r['id']: r for r in case['reqs']}
 
     def cur():
@@ -462,7 +465,23 @@ def project(obs, case):
     # what is alive is judged by the oracle (the model's `alive` is the set that MAY be retained)
     out = dict(responses=[dict(events=r['events'], escaped=r['escaped']) for r in obs['responses']],
                tb=obs['tb'], ctx=obs['ctx'])
-    return mask_shared(out, case)
+    return mask_shared(debug_reduced(out, case), case)
+
+
+def debug_reduced(out, case):
+    """debug=True: the text of the HTML error pages (repr of the exception, traceback) is not modelled; model and
+    implementation are compared on the event kinds, status lines and header names, the oracle (history against a
+    fresh process) on everything"""
+    if not case.get('debug'):
+        return out
+
+    def red(e):
+        if e[0] == 'start':
+            return ['start', e[1], sorted({n for n, _ in e[2]}), e[3]]
+        if e[0] == 'body':
+            return ['body']
+        return e
+    return dict(out, responses=[dict(r, events=[red(e) for e in r['events']]) for r in out['responses']])
 
 
 def mask_shared(out, case):
@@ -486,6 +505,7 @@ BODY_OUTCOME = {
     # malformed framing headers: a Content-Length int() refuses is a ValueError where the handler first touches the
     # body (today a 500: finding *-content-length-not-int of C05/C12); one int() accepts in an unusual spelling, an
     # empty, negative or huge one, and unusual Transfer-Encoding values are served
+    'json_array': ('shared', 2, False),       # POST: 'JSON object expected', raised outside any except block
     'cl_bad': ('crash',), 'cl_odd': ('ok',), 'te_odd': ('ok',), 'te_cl_bad': ('crash',),
 }
 CL_BAD = ['12, 12', '1e3', '12abc', '0x10', '12.0', 'twelve', '1 2', '--5', '12,', '\xb2']
@@ -587,9 +607,7 @@ def decode(out, case):
     ent = q.list(lambda z: [z.list(lambda y: y.int()), (z.int() if z.bool() else None)])
     tbs, ctx = [e[0] for e in ent], [e[1] for e in ent]
     resp = [dict(events=ev, escaped=False) for ev in rs]
-    if case.get('other_app'):
-        return mask_shared(dict(responses=resp, tb=tbs, ctx=ctx), case)
-    return dict(responses=resp, tb=tbs, ctx=ctx)
+    return mask_shared(debug_reduced(dict(responses=resp, tb=tbs, ctx=ctx), case), case)
 
 
 # --------------------------------------------------------------------------
@@ -691,6 +709,9 @@ def body_request(rng, rid, cls, secret=None):
     elif cls == 'badjson':
         how = 'json'
         req.update(body=list(('{"token": "%s"' % secret).encode()), ctype='application/json; charset=utf-8')
+    elif cls == 'json_array':
+        how = 'forms'
+        req.update(body=list(json.dumps([secret, 1]).encode()), ctype='application/json')
     elif cls == 'json_big':
         how = 'json'
         req.update(body=list(json.dumps({'token': secret, 'pad': 'x' * MEMFILE}).encode()), ctype='application/json')
@@ -801,7 +822,7 @@ def g_history(rng, n=None):
             eh.append([code, dict(k='const', o=c3.g_out(c, 1, allow=('falsy', 'str', 'bytes', 'http'))) if k == 'const'
                        else dict(k=k)])
     return dict(kind='history', peek=rng.random() < 0.6, eh=eh, reqs=[g_request(rng, i) for i in range(n)],
-                other_app=rng.random() < 0.3, cfg_via=rng.choice(['ctor', 'setup']))
+                other_app=rng.random() < 0.3, cfg_via=rng.choice(['ctor', 'setup']), debug=rng.random() < 0.15)
 
 
 def retention_case(cls, n):
@@ -953,19 +974,42 @@ def corpus():
                            reqs=[_req(0, dict(cookie, method=prev_m)), nopath(1, m, json=True), _req(2, plain(hello))]))
     cs.append(dict(kind='history', peek=False, eh=[], reqs=[nopath(0, 'GET'), nopath(1, 'HEAD'), _req(2, cookie), dict(bad, id=3),
                                                             nopath(4, 'GET'), dict(over[0], id=5), nopath(6, 'HEAD')]))
+    # debug=True: the error pages show the exception.  Body errors of the same mapped class raised from inside an
+    # except block (their __context__ is this request's exception, e.g. the multipart error quoting its part headers)
+    # and from outside one (a raise there leaves __context__ as it is), in both orders: every page is the fresh one
+    # (seeded change: the debug page shows err.__context__ when the error has no .exception)
+    inside = ['noname', 'badjson', 'badchunk', 'bigfield', 'oversize']
+    outside = ['json_array', 'urlenc_big', 'json_big']
+    import random as _random
+    for a in inside:
+        for b in outside:
+            for order in ((0, 1) if a in ('noname', 'badjson', 'oversize') else (0,)):
+                rr2 = _random.Random('%s/%s' % (a, b))
+                x = body_request(rr2, 0, a, secret='alice-secret-7f3a')
+                y = body_request(rr2, 1, b, secret='bob')
+                x['case']['json'] = y['case']['json'] = False
+                first, second = (x, y) if order == 0 else (dict(y, id=0), dict(x, id=1))
+                cs.append(dict(kind='history', peek=False, eh=[], debug=True, reqs=[first, second]))
+    for a in inside[:3]:
+        rr2 = _random.Random('dbg3' + a)
+        x = body_request(rr2, 0, a, secret='alice-secret-7f3a')
+        y = body_request(rr2, 2, 'json_array', secret='bob')
+        x['case']['json'] = y['case']['json'] = False
+        cs.append(dict(kind='history', peek=True, eh=[], debug=True, reqs=[x, _req(1, plain(hello)), y,
+                                                                           dict(_req(3, dict(boom, json=False)), **{'class': 'routerboom'})]))
     # malformed framing headers right after a request that set cookies / headers / a status: whatever the answer is
     # (today a 500 for a Content-Length int() refuses), it is the fresh application's and carries nothing of the
     # earlier request (seeded change: a 400 raised inside request.__init__, i.e. before response.__init__())
     import random
     for k, cl in enumerate(CL_BAD):
-        for js in (False, True):
+        for js in (k % 2 == 1,):
             b = body_request(random.Random('clbad'), 1, 'cl_bad')
             b.update(cl=cl)
             b.pop('short', None)
             b['case']['json'] = js
             cs.append(dict(kind='history', peek=(k % 2 == 0), eh=[], reqs=[_req(0, cookie, qs='secret=1'), b, _req(2, plain(hello))]))
     for cls in ('cl_odd', 'te_odd', 'te_cl_bad'):
-        for k in range(6):
+        for k in range(3):
             b = body_request(random.Random('%s%d' % (cls, k)), 1, cls)
             cs.append(dict(kind='history', peek=(k % 2 == 0), eh=[], reqs=[_req(0, cookie), b, _req(2, st_case(520, 'raise')),
                                                                          dict(b, id=3)]))
